@@ -21,6 +21,13 @@ import (
 // through Dial and DialContext. Two recording dialers observe which one is
 // used. The reference never parses a configuration string: each alphabet
 // entry carries its meaning (kind + bytes/bits/name) typed by hand.
+//
+// The dialled-host table also contains IP literals whose *text* would satisfy
+// a zone or host rule if the literal were (wrongly) read as a name: IPv6
+// literals with a zone identifier that ends in / equals an added zone or host
+// name, and an IPv4 literal whose dotted text ends in an added zone or equals
+// a string handed to AddHost. An IP literal is routed by the IP and network
+// rules only, so they use the default dialer unless such a rule contains them.
 
 type c53Kind int
 
@@ -39,6 +46,7 @@ type c53Entry struct {
 	bits   int     // c53CIDR: prefix length
 	name   string  // c53Zone ("*.name"), c53Host
 	spaced bool    // written with surrounding white space: handling is not documented
+	direct bool    // expressible only through the direct Add* calls (AddFromString would read the text as another kind)
 	label  string
 }
 
@@ -60,6 +68,9 @@ var c53Entries = []c53Entry{
 	{text: " host2 ", kind: c53Host, name: "host2", spaced: true, label: "host-spaced"},
 	{text: "1.2.9.9/16", kind: c53CIDR, ip: []byte{1, 2, 9, 9}, bits: 16, label: "cidr4-hostbits"},
 	{text: "a.zone.com", kind: c53Host, name: "a.zone.com", label: "host-sub"},
+	// name rules whose text is a suffix of / equal to the text of a dialled IP literal
+	{text: "*.3.5", kind: c53Zone, name: "3.5", label: "zone-numeric"},
+	{text: "1.2.3.5", kind: c53Host, name: "1.2.3.5", direct: true, label: "host-ip4-text"}, // AddHost("1.2.3.5") only
 	// thorough only from here
 	{text: "0.0.0.0/0", kind: c53CIDR, ip: []byte{0, 0, 0, 0}, bits: 0, label: "cidr4-all"},
 	{text: "::/0", kind: c53CIDR, ip: c53V6zero, bits: 0, label: "cidr6-all"},
@@ -68,12 +79,13 @@ var c53Entries = []c53Entry{
 	{text: "*.com", kind: c53Zone, name: "com", label: "zone-tld"},
 }
 
-const c53QuickEntries = 12
+const c53QuickEntries = 14
 
 type c53Dialled struct {
 	host  string // as it appears in the address (IPv6 in brackets)
 	ip    []byte // nil for a name
 	name  string // for names
+	zoned bool   // IPv6 literal with a zone identifier (ip = the address without it)
 	label string // abstract class used in signatures
 }
 
@@ -103,6 +115,14 @@ var c53Hosts = []c53Dialled{
 	{host: "a.host", name: "a.host", label: "name-host-is-suffix"},
 	{host: "HOST", name: "HOST", label: "name-case-differs"},
 	{host: "A.Zone.Com", name: "A.Zone.Com", label: "name-case-differs"},
+	// a name below the numeric zone (1.2.3.5 above is the IP literal whose text ends in it)
+	{host: "x.3.5", name: "x.3.5", label: "name"},
+	// IPv6 literals with a zone identifier: IP literals, never names
+	{host: "[::1%a.zone.com]", ip: c53V6one, zoned: true, label: "ip6-zone-id-ends-in-zone"},
+	{host: "[::1%.zone.com]", ip: c53V6one, zoned: true, label: "ip6-zone-id-ends-in-zone"},
+	{host: "[2001:db9::1%25.zone.com]", ip: []byte{0x20, 0x01, 0x0d, 0xb9, 0, 0, 0, 0, 0, 0, 0, 0, 0, 0, 0, 1}, zoned: true, label: "ip6-zone-id-ends-in-zone"},
+	{host: "[::1%zone.com]", ip: c53V6one, zoned: true, label: "ip6-zone-id-equals-name"},
+	{host: "[::1%host]", ip: c53V6one, zoned: true, label: "ip6-zone-id-equals-name"},
 }
 
 var c53Ports = []string{"80", "443"}
@@ -139,13 +159,20 @@ func c53PrefixEqual(a, b []byte, bits int) bool {
 }
 
 // c53Matches: does entry e make dialled host d use the bypass dialer?
-// fold selects the (undocumented) case-insensitive reading of name equality.
-func c53Matches(e c53Entry, d c53Dialled, fold bool) (bool, string) {
+// fold selects the (undocumented) case-insensitive reading of name equality;
+// zoneStrip selects, for a dialled literal with a zone identifier, the reading
+// "compare the address, ignore the zone identifier" against added IPv6
+// addresses/networks (the other reading: such a literal is in none of them).
+// Neither reading lets a literal match a zone or host rule.
+func c53Matches(e c53Entry, d c53Dialled, fold, zoneStrip bool) (bool, string) {
 	eq := func(a, b string) bool {
 		if fold {
 			return strings.EqualFold(a, b)
 		}
 		return a == b
+	}
+	if d.zoned && !zoneStrip && (e.kind == c53IP || e.kind == c53CIDR) {
+		return false, ""
 	}
 	switch e.kind {
 	case c53IP:
@@ -173,13 +200,13 @@ func c53Matches(e c53Entry, d c53Dialled, fold bool) (bool, string) {
 	return false, ""
 }
 
-func c53Ref(cfg []int, d c53Dialled, fold, spacedCount bool) (bool, string) {
+func c53Ref(cfg []int, d c53Dialled, fold, spacedCount, zoneStrip bool) (bool, string) {
 	for _, i := range cfg {
 		e := c53Entries[i]
 		if e.spaced && !spacedCount {
 			continue
 		}
-		if m, why := c53Matches(e, d, fold); m {
+		if m, why := c53Matches(e, d, fold, zoneStrip); m {
 			return true, e.label + ":" + why
 		}
 	}
@@ -225,13 +252,20 @@ type c53CtxKey struct{}
 
 func c53Check(w *vx.W, x c53Case) {
 	d := c53Hosts[x.Host]
-	// the four readings of the undocumented points must agree, else the case is excluded
-	want, why := c53Ref(x.Cfg, d, false, true)
+	// all readings of the undocumented points must agree, else the case is excluded
+	want, why := c53Ref(x.Cfg, d, false, true, true)
+	if o, _ := c53Ref(x.Cfg, d, false, true, false); o != want {
+		// only reachable when an added IPv6 address/network contains the address of a zoned literal
+		w.Outcome("excluded:zoned-literal-inside-added-ipv6-address-or-network")
+		return
+	}
 	for _, fold := range []bool{false, true} {
 		for _, sp := range []bool{false, true} {
-			if o, _ := c53Ref(x.Cfg, d, fold, sp); o != want {
-				w.Outcome("excluded:depends-on-undocumented-case-or-space-handling")
-				return
+			for _, zs := range []bool{false, true} {
+				if o, _ := c53Ref(x.Cfg, d, fold, sp, zs); o != want {
+					w.Outcome("excluded:depends-on-undocumented-case-or-space-handling")
+					return
+				}
 			}
 		}
 	}
@@ -356,6 +390,8 @@ func c53Check(w *vx.W, x c53Case) {
 	}
 	if want {
 		w.Outcome("bypass:" + why[strings.Index(why, ":")+1:])
+	} else if d.zoned {
+		w.Outcome("default:ip-with-zone-id")
 	} else if d.ip != nil {
 		w.Outcome("default:ip")
 	} else {
@@ -375,10 +411,11 @@ func TestVerif_C53(t *testing.T) {
 		for _, h := range c53Hosts {
 			hosts = append(hosts, h.host)
 		}
-		c.Rule(fmt.Sprintf("every ordered configuration of <= %d entries from {%s} installed on a fresh PerHost in 4 ways (AddFromString joined by commas; AddFromString per entry; AddIP/AddNetwork/AddZone/AddHost with 4-byte and with 16-byte IPv4) x every dialled host of {%s} x ports {80,443} x {Dial, DialContext with plain dialers, DialContext with ContextDialers}; two recording dialers; oracle: exactly one dialer is called exactly once with the unchanged (network, addr), it is bypass iff a structured reference predicate (IP equality, prefix containment within the same address family, zone apex/subdomain, host equality) holds, and its result is returned; non-trivial = a non-empty configuration was routed and compared",
+		c.Rule(fmt.Sprintf("every ordered configuration of <= %d entries from {%s} installed on a fresh PerHost in 4 ways (AddFromString joined by commas; AddFromString per entry; AddIP/AddNetwork/AddZone/AddHost with 4-byte and with 16-byte IPv4; the entry AddHost(\"1.2.3.5\") only in the direct ways, empty/malformed/spaced entries only in the AddFromString ways) x every dialled host of {%s} x ports {80,443} x {Dial, DialContext with plain dialers, DialContext with ContextDialers}; two recording dialers; oracle: exactly one dialer is called exactly once with the unchanged (network, addr), it is bypass iff a structured reference predicate (IP equality, prefix containment within the same address family, zone apex/subdomain, host equality; zone and host rules apply to names only, so a dialled IP literal - including an IPv6 literal with a zone identifier whose text ends in / equals an added zone or host name, and an IPv4 literal whose text ends in an added zone or equals an AddHost string - is routed by the IP and network entries alone) holds, and its result is returned; non-trivial = a non-empty configuration was routed and compared",
 			maxCfg, strings.Join(names, " "), strings.Join(hosts, " ")))
 		c.Assume("undocumented points are excluded, not guessed: a case is skipped (outcome excluded:…) when its expected route differs between case-sensitive and case-insensitive name comparison, or between trimming and ignoring an entry written with surrounding white space")
-		c.Assume("not enumerated because neither the statement nor the package documentation settles them: IPv6 zone identifiers in dialled hosts or entries, IPv4-mapped IPv6 addresses against IPv4 entries, trailing dots on dialled names or entries, names with leading dots, IP-literal strings passed to AddHost/AddZone, addresses without a port (SplitHostPort error), IDNA names")
+		c.Assume("a dialled IPv6 literal with a zone identifier is an IP literal; whether an added IPv6 address/network that contains its address (zone identifier ignored) makes it bypass is not settled by the statement: such cases are skipped (outcome excluded:zoned-literal-inside-added-ipv6-address-or-network); with no such entry (no IPv6 entries, IPv4 entries only, or IPv6 entries not containing the address) no IP or network contains it under either reading and the default dialer is required whatever zone/host entries are present")
+		c.Assume("not enumerated because neither the statement nor the package documentation settles them: IPv6 zone identifiers in entries, IPv4-mapped IPv6 addresses against IPv4 entries, trailing dots on dialled names or entries, names with leading dots, IP-literal strings passed to AddZone or other than one IPv4 string passed to AddHost, addresses without a port (SplitHostPort error), IDNA names")
 		c.Assume("a CIDR entry with host bits set (1.2.9.9/16) denotes the network of that prefix length containing the address")
 		c.Note("config_entries", nEnt)
 		c.Note("dialled_hosts", len(c53Hosts))
@@ -390,17 +427,17 @@ func TestVerif_C53(t *testing.T) {
 		vx.Enumerate(c, "route", vx.Opts{}, func(yield func(c53Case) bool) {
 			vx.Strings(idx, 0, maxCfg, func(cfg []int) bool {
 				for via := 0; via < 4; via++ {
-					if via >= 2 {
-						// direct calls cannot express ignored/spaced entries; skip configs that contain them
-						skip := false
-						for _, i := range cfg {
-							if c53Entries[i].kind == c53Ignored || c53Entries[i].spaced {
-								skip = true
-							}
+					// direct calls cannot express ignored/spaced entries, AddFromString cannot
+					// express direct-only entries; skip configs that contain them
+					skip := false
+					for _, i := range cfg {
+						e := c53Entries[i]
+						if via >= 2 && (e.kind == c53Ignored || e.spaced) || via < 2 && e.direct {
+							skip = true
 						}
-						if skip {
-							continue
-						}
+					}
+					if skip {
+						continue
 					}
 					for h := range c53Hosts {
 						for port := range c53Ports {
